@@ -39,7 +39,7 @@ ASSUMPTIONS = ["the vendored Cython 3.3.0 translation is trusted to be what Cyth
                "the source-level emulation of the .pyx (pmv/pyxemu.py) and says so in the evidence"]
 REQUIRED = ["m1_" + f for f in ("hex2bin", "bin2int", "hex2int", "bin2hex", "df", "crc", "floor", "icao", "is_icao_assigned", "typecode",
                                 "cprNL", "idcode", "squawk", "altcode", "altitude", "gray2alt", "data", "allzeros", "wrongstatus")] + \
-           ["m2_calls", "m2_history", "engine_selected_at_import"]
+           ["m2_calls", "m2_history", "engine_selected_at_import", "m1_malformed_code_strings"]
 MAX_SHARDS = 16
 
 _prep = {}
@@ -177,6 +177,13 @@ def m_m1(ctx, case):
                 ctx.notes.setdefault("emulator_disagreements", [])
                 if len(ctx.notes["emulator_disagreements"]) < 5:
                     ctx.notes["emulator_disagreements"].append({"fn": fn, "args": args, "c": repr(rc), "emu": repr(re_)})
+        if case.get("malformed"):
+            # not a well-formed code string: the statement only asks that the twins REFUSE the same inputs (RuntimeError from
+            # both or from neither) - what either returns for garbage it does not refuse is not judged
+            ctx.hit("m1_malformed_code_strings")
+            if (rc[:2] == ("exc", "RuntimeError")) != (rp[:2] == ("exc", "RuntimeError")):
+                ctx.violation("m1-%s-refuses-different-inputs" % fn, fn=fn, args=args, c=rc, py=rp)
+            continue
         if not eq(fn, rc, rp):
             key = "m1-%s-differs" % fn
             a0 = args[0] if args else None
@@ -199,7 +206,7 @@ def m_m1(ctx, case):
         names = [p_.name for p_ in inspect.signature(fp).parameters.values()]
     except (TypeError, ValueError):
         names = None
-    if names:
+    if names and not case.get("malformed"):
         for args in case["args"][:40]:
             if len(args) > len(names):
                 continue
@@ -403,6 +410,19 @@ def cases(ctx):
     work += chunks("altitude", [[format(c, "013b")] for c in range(8192)])
     work += chunks("squawk", [[format(c, "013b")] for c in range(8192)])
     work += chunks("gray2alt", [[format(c, "011b")] for c in range(2048)])
+    # code strings that are NOT well formed (a line terminator kept, blanks, one character too many / few, a foreign digit):
+    # both twins refuse the same ones
+    for fn_, w_ in (("altitude", 13), ("squawk", 13)):
+        bad = []
+        for _ in range(40 * N):
+            cde = format(rng.fill(w_), "0%db" % w_)
+            j_ = rng.randrange(w_)
+            bad += [[cde + "\n"], [cde + "\r\n"], [cde + " "], [" " + cde], ["\n" + cde], [cde + "0"], [cde[:-1]], [cde[:-1] + "\n"], [cde[:j_] + "2" + cde[j_ + 1:]],
+                    [cde[:j_] + " " + cde[j_ + 1:]], [cde + "\t"], [cde[:j_] + "\n" + cde[j_ + 1:]], [""], [cde + cde]]
+        for k_ in range(0, len(bad), 256):
+            if ctx.mine(i):
+                work.append(("m1", {"fn": fn_, "args": bad[k_:k_ + 256], "malformed": 1}))
+            i += 1
     work += chunks("hex2bin", [[rhex(rng.randint(1, 28))] for _ in range(3000 * N)] + [["0"], ["F"], ["f"], ["00"], ["a0B1c2"]])
     work += chunks("bin2int", [[format(rng.fill(nb), "0%db" % nb)] for nb in range(1, 113) for _ in range(20 * N)] +
                    [["0" * 64], ["1" + "0" * 62], ["1" + "0" * 63], ["1" * 64], ["1" * 112]])
